@@ -6,5 +6,7 @@ CONSTANTS
   GridK = 6
   KStep = 4
   Ws = {24, 96}
+  Only = {}
+  Sabotage = 0
 INVARIANT LawsOK
 CHECK_DEADLOCK FALSE
